@@ -248,12 +248,12 @@ Proof.
   reflexivity.
 Qed.
 
-Lemma parse_document_shE dtd c : ws <> [] -> text <> [] ->
+Lemma parse_document_shE dtd c : ws <> [] ->
   starts_with (stream_new text) [239; 187; 191] = false ->
   starts_with_declaration (stream_new text) = false ->
   resE fc (parse_document text C ev1 dtd c) (parse_document text2 C ev2 dtd (fc c)).
 Proof.
-  intros Hne Hte Hbom Hdecl. unfold parse_document. cbv zeta.
+  intros Hne Hbom Hdecl. unfold parse_document. cbv zeta.
   rewrite Hbom. cbn [bind]. rewrite Hdecl. cbn [bind].
   destruct (first_is_space ws Hws Hne) as (w & r & Ews & Hw). apply (space_cases ws text) in Hw.
   assert (Hb2 : starts_with (stream_new text2) [239; 187; 191] = false).
@@ -269,14 +269,20 @@ Proof.
   assert (Hmisc : forall s c0, rsimE shp (parse_misc text C ev1 s c0) (parse_misc text2 C ev2 (shs s) (fc c0))).
   { intros s c0. unfold parse_misc. rewrite s_rest_sh. apply parse_misc_loop_shE. }
   (* the first parse_misc *)
-  eapply resE_bind.
+  eapply resE_bind with (f := shp).
   { unfold parse_misc. cbn [stream_new s_rest]. cbn [parse_misc_loop].
-    assert (A1 : at_end (stream_new text) = false).
-    { unfold at_end, stream_new, tlen, blen. cbn. destruct text; [congruence|]. cbn [length]. lia. }
     assert (A2 : at_end (stream_new text2) = false).
     { unfold at_end, stream_new, tlen, blen. cbn. rewrite Ews. cbn [app length]. lia. }
     cbv zeta. fold (stream_new text). fold (stream_new text2).
-    rewrite A1, A2, (skip_spaces_init ws text Hws). sync.
+    rewrite A2, (skip_spaces_init ws text Hws). sync.
+    destruct (at_end (stream_new text)) eqn:A1.
+    { (* an empty text: the second run skips the whitespace and stops as well *)
+      assert (Et : text = []).
+      { unfold at_end, stream_new, tlen, blen in A1. cbn in A1. destruct text; [reflexivity|]. cbn [length] in A1. lia. }
+      clear A2 Hb2 Hd2 Hbom Hdecl Hmisc A1. revert Hvalid Hev. rewrite Et. intros Hvalid' Hev'.
+      change (skip_spaces (stream_new [])) with (stream_new []).
+      change (starts_with (stream_new []) (b "<!--")) with false.
+      change (starts_with (stream_new []) (b "<?")) with false. reflexivity. }
     set (s1 := skip_spaces (stream_new text)).
     destruct (starts_with s1 (b "<!--")).
     { eapply resE_bind; [apply rsimE_resE, parse_comment_shE|]. intros [s4 c4] _.
